@@ -144,6 +144,15 @@ def run(repo, rep, tier):
     rep.check(bool(sup_), "R03.4", ds_.qualname, "the debugging output "
               "stream stores every fragment", construct="debug-stream-appends",
               where=L.where(ds_))
+    # a byte order mark is no part of the document (C17 owns the table);
+    # ordinary data-* attributes are left as written (C18 owns the
+    # conversion)
+    from . import c17 as _c17
+    L.borrow(repo, rep, "R03.5", "C17", _c17._table, ("bom-survives",),
+             minimum=2)
+    from . import c18 as _c18
+    L.borrow(repo, rep, "R03.5", "C18", _c18._keyed,
+             ("language-only", "data-prefix", "convert-first"), minimum=3)
     L.state_rule(repo, rep)
 
 
